@@ -118,4 +118,13 @@ META = {
          "float of columns 2 and 3), raises ValueError only when asked not to discard. Bounded (labelled): TextGrid / ELAN / RTTM readers and "
          "actual csv quoting.",
    note="Assumed: csv / open / float-str model; third-party parsers."),
+ "C15": dict(
+   technique="contract-based deductive verification of StatisticalContinuumSampler.sample_from_continuum with every random draw a fresh "
+             "unconstrained value in its law's support (so clauses hold for every draw), plus law-tag data-flow obligations for the distribution part",
+   level="Proved for every draw: the sample is a fresh continuum with exactly the ground-truth annotators, at least one unit, only units "
+         "longer than the precision (RI), only labels from the sampler's category array, bounds / window copied from the reference, reference "
+         "untouched. Law tags: unit count ~ |int Normal(avg_nb, std_nb)|, gaps ~ Normal(avg_gap, std_gap) chained on the previous end, durations "
+         "~ |Normal(avg_dur, std_dur)|, categories ~ Categorical(categories, weights); parameters measured with mean / std of the same sample or "
+         "exactly those supplied.",
+   note="Not decided: convergence of empirical statistics (statistical); NumPy's generators are assumed to implement the tagged laws."),
 }
